@@ -291,12 +291,8 @@ def r4_default_formats(chk):
     o, fn = ci.find_method('genDefVal')
     chk.doc('C04.R4', 'the DEFVAL formats genDefVal can produce are exactly the formats the default() macro handles, '
                       'and the macro reads definition.default.default.{format,value,basetype}')
-    produced = set()
-    for c in walk_no_nested(fn):
-        if isinstance(c, ast.Call) and isinstance(c.func, ast.Attribute) and c.func.attr == 'update':
-            for kw in c.keywords:
-                if kw.arg == 'format' and isinstance(kw.value, ast.Constant):
-                    produced.add(kw.value.value)
+    produced = set(s_.value.value for s_ in ir.record_stores(fn) if s_.key == ('format',) and
+                   isinstance(s_.value, ast.Constant))      # update(format=..) and D['format'] = .. alike
     src = tm.macro_source('default') or ''
     handled = set(re.findall(r"\['format'\] == '(\w+)'", src))
     chk.ob('C04.R4', 'default-formats', produced == handled and len(produced) >= 6, tm.rel,
